@@ -91,6 +91,10 @@ func genAuthCfg(r *rand.Rand) vfCfg {
 		c.CliTokenLife = pick(r, []string{"1h", "30m", "24h"})
 	}
 	c.GroupsLDAP = chance(r, 0.5)
+	if chance(r, 0.15) {
+		// passwords and second factors checked by (simulated) Okta through the real Okta authenticator
+		c.PwBackend = "okta"
+	}
 	return c
 }
 
@@ -314,6 +318,23 @@ func genAuthPlan(r *rand.Rand, tier, focus string) *vfPlan {
 				}
 			case 6:
 				add(vfStep{Op: "pushpoll", Sess: s, A: "sess:" + pick(r, vfSessNames)})
+			}
+			if p.Cfg.PwBackend == "okta" && chance(r, 0.5) {
+				switch r.IntN(3) {
+				case 0:
+					add(vfStep{Op: "oktaotp", Sess: s, A: pick(r, []string{"cur", "cur", "prev", "wrong", "other:" + pick(r, vfHonestUsers)})})
+					if chance(r, 0.3) {
+						add(vfStep{Op: "oktaotp", Sess: pick(r, vfSessNames), A: "cur"}) // the same code again, maybe by another session
+					}
+				case 1:
+					add(vfStep{Op: "oktapushstart", Sess: s})
+					if chance(r, 0.7) {
+						add(vfStep{Op: "okta_device", User: pick(r, vfHonestUsers), A: pick(r, []string{"approve", "approve", "deny"})})
+					}
+					add(vfStep{Op: "oktapoll", Sess: pick(r, []string{s, s, pick(r, vfSessNames)})})
+				default:
+					add(vfStep{Op: "oktapoll", Sess: s})
+				}
 			}
 			if chance(r, 0.1) {
 				// the same request also carries another session's cookie (first in the Cookie header)
